@@ -124,6 +124,10 @@ def check(ctx: Ctx):
     tracking.check_distance_matcher(ctx, rules=("GREEDY", "INDEX", "CUTOFF"))
     tracking.check_main_loop(ctx, rules=("FLOW",))
     tracking.check_track_append(ctx, rules=("NONETEST",))
+    from ..rules import support
+
+    support.check_track_accessors(ctx)
+    ctx.expect("ACCESSOR", 4)
     ctx.expect("METRIC", 4)
     ctx.expect("STRICT", 1)
     ctx.expect("CONT", 1)
